@@ -235,13 +235,15 @@ func (f *fx) run(st *State, reach Term) {
 
 func (f *fx) execBlock(b *ssa.BasicBlock, edges []*edge) {
 	f.curBlock = b
+	f.curIdx = -1
 	li := f.loops[b]
 	if li != nil {
 		f.enterLoop(li, edges)
 	} else {
 		f.cur, f.curReach = f.mergeStates(edges)
 	}
-	for _, in := range b.Instrs {
+	for i, in := range b.Instrs {
+		f.curIdx = i
 		if li != nil {
 			if _, ok := in.(*ssa.Phi); ok {
 				continue // handled by enterLoop
@@ -310,6 +312,9 @@ func (f *fx) loopModKeys(li *loopInfo) (keys map[string]bool, all bool) {
 				keys[f.deferKey(x)] = true
 			case ssa.CallInstruction:
 				if k := f.ncallsKey(x); k != "" {
+					keys[k] = true
+				}
+				if k := f.visitsKey(x.Common(), x.Pos()); k != "" {
 					keys[k] = true
 				}
 				ks, a := f.callModKeys(x)
@@ -436,6 +441,18 @@ func (f *fx) enterLoop(li *loopInfo, edges []*edge) {
 		li.decr0 = f.sc.define("decr0", f.specTerm(spec.Decreases, env))
 		li.hasDec = true
 	}
+	li.headState = f.cloneState(f.cur)
+	li.headPhis = map[*ssa.Phi]Val{}
+	for _, in := range li.head.Instrs {
+		if phi, ok := in.(*ssa.Phi); ok {
+			li.headPhis[phi] = f.vals[phi]
+		}
+	}
+	li.mono0 = nil
+	for _, m := range spec.Monotone {
+		env := f.envAt(f.cur)
+		li.mono0 = append(li.mono0, f.sc.define("mono0", f.specBool(m, env)))
+	}
 	// cover: the loop head must be reachable under the invariant
 	f.cover(fmt.Sprintf("loop%d/cover", li.ord))
 }
@@ -463,6 +480,17 @@ func (f *fx) closeLoop(li *loopInfo, predIdx int, cond Term) {
 		d := f.specTerm(li.spec.Decreases, env)
 		g := T("Bool", "(and (<= 0 %s) (< %s %s))", li.decr0.S, d.S, li.decr0.S)
 		f.oblige("decreases", fmt.Sprintf("loop%d/decreases#%d", li.ord, predIdx), g, li.spec.Decreases.Props, li.spec.Decreases.Where, li.spec.Decreases.Src)
+	}
+	for i, m := range li.spec.Monotone {
+		env := f.envAt(f.cur)
+		g := implies(li.mono0[i], f.specBool(m, env))
+		f.oblige("monotone", fmt.Sprintf("loop%d/monotone%s/preserved#%d", li.ord, clauseName(m, i), predIdx), g, m.Props, m.Where, "once true it stays true: "+m.Src)
+	}
+	for i, st := range li.spec.Steps {
+		env := f.envAt(f.cur)
+		env.prevLoop = li
+		g := f.specBool(st, env)
+		f.oblige("step", fmt.Sprintf("loop%d/step%s/preserved#%d", li.ord, clauseName(st, i), predIdx), g, st.Props, st.Where, "one iteration: "+st.Src)
 	}
 	for phi, v := range saved {
 		f.vals[phi] = v
@@ -1042,6 +1070,12 @@ func (f *fx) makeIface(v Val, t types.Type) Term {
 	} else {
 		payload = app("Int", f.boxName(x.Sort), x)
 	}
+	f.sc.declareOnce("is_ptr_tag", "(declare-fun is_ptr_tag (Int) Bool)")
+	isPtr := "false"
+	if _, ok := t.Underlying().(*types.Pointer); ok {
+		isPtr = "true"
+	}
+	f.sc.declareOnce(fmt.Sprintf("is_ptr_tag#%d", tag), fmt.Sprintf("(assert (= (is_ptr_tag %d) %s))", tag, isPtr))
 	return T("Iface", "(mk_iface %d %s)", tag, payload.S)
 }
 
